@@ -360,6 +360,8 @@ def apply_rules(card, sig, body, log):
     run('X20', R.x20_take_enumerate)
     run('X16', R.x16_hvec_loops)
     run('X6', R.x6_for_ref)
+    if card.opts.get('sliceiter'):
+        run('X6b', R.x6b_for_slice, tuple(card.opts['sliceiter'].split(',')))
     run('X19', R.x19_copy_within)
     run('X13', R.x13_bool_or_assign)
     run('X23', R.x23_match_never)
